@@ -67,13 +67,17 @@ CLAIMED = {
         note=NOTE_COMMON + "Floating-point re-association is bounded only empirically by the 1e-9 tolerance; the loss kernels belong to C06, served data to C08/C14; data races are outside (C18)."),
     "C07": dict(
         category="proof", technique=TECH_GEN, design="DESIGN.md §4 C07",
-        text="All five line searches (preamble of lsearchk_t::get, backtracking, LeMarechal, Fletcher+zoom, More-Thuente, CG_DESCENT) are modelled with the line "
-             "function as an oracle and the has_* acceptance predicates RE-TRANSLATED from src/solver/state.cpp on every run; for every oracle, interpolation, (c1,c2), t0 and "
-             "max_iterations it is proved that a non-descent direction is refused with the state untouched, that on success the returned state is the evaluation at the "
-             "returned step, that backtracking / LeMarechal / Fletcher success implies Armijo / Armijo+Wolfe / Armijo+strong Wolfe (generated predicates), step positivity "
-             "for those three, and explicit bounds on evaluations per call (13 theorems; More-Thuente positivity is `_partial` with a kernel-checked model witness of t = 0). "
+        text="All five line searches (preamble of lsearchk_t::get incl. the clamp of the initial step and the shrink / grow loops, backtracking, LeMarechal, Fletcher+zoom, More-Thuente with dcstep, CG_DESCENT) are modelled with the "
+             "line function as an oracle; the has_* acceptance predicates, stpmin / stpmax AND the interpolation formulas (lsearch_step_t::cubic / quadratic / secant / bisection / interpolate of lstep.cpp / lstep.h) are RE-TRANSLATED "
+             "from the source on every run (the model's own text of the formulas is proved to be the generated one by rfl). For every oracle, interpolation, (c1,c2), t0 and max_iterations: a non-descent direction is refused with "
+             "the state untouched, on success the returned state is the evaluation at the returned step, backtracking / LeMarechal / Fletcher / More-Thuente success implies Armijo / Armijo+Wolfe / Armijo+strong Wolfe (More-Thuente: "
+             "since the repair 3b214f8), CG_DESCENT success is exactly Wolfe | approximate Wolfe | the 'bracketing failed' exit (known finding, needs more than max_iterations evaluations or an interval below stpmin), step positivity, "
+             "explicit bounds on evaluations per call, what a non-positive / non-finite initial step becomes; the translated formulas are the stationary point of the Hermite cubic, the minimiser of the parabola, the root of the linear "
+             "slope, exact on quadratics. On convex quadratics in exact arithmetic ALL FIVE searches are proved to succeed for every t0 within explicit budgets (More-Thuente incl. the extrapolation phase from an undershooting first "
+             "trial; hypotheses c1 <= 1/2, stpmin <= t* <= stpmax each shown necessary by a kernel-checked run replayed on the code) (59 theorems, nothing `_partial`). "
              "Correspondence by oracle replay without hooks (every trial step, verdict and returned step of the real code against the model, 1e-12); the python oracle "
-             "recomputes the advertised conditions from the user function. Success on convex quadratics is tested only (7 open known findings at the ends of the tolerance domain).",
+             "recomputes the advertised conditions from the user function and re-evaluates the preamble from the logged evaluations. Success on convex quadratics in floating point is oracle-tested (open known findings at the ends "
+             "of the tolerance domain, where the acceptance interval is below floating-point resolution).",
         note=NOTE_COMMON + "Finiteness of the step, CG_DESCENT's success cases and 'all five succeed on convex quadratics' are floating-point / convergence claims: oracle-tested, not proved."),
     "C05": dict(
         category="proof", technique=TECH, design="DESIGN.md §4 C05",
